@@ -35,6 +35,12 @@ type Proto struct {
 	MTB   uint32 // MaxTraceableBlocks (0 = neotest default 1000)
 	P2PSE bool   // P2PStateExchangeExtensions
 	SSI   int    // StateSyncInterval
+	// Gov: a committee of govCommittee standby members (a dBFT epoch is that many blocks), one validator, and
+	// governance transactions in the history (candidate registration, votes, NEO transfers of voters, account blocking)
+	Gov bool
+	// GovFixed (with Gov): the fixed corpus history - funding, then at the second block of an epoch ONE block that
+	// registers three candidates and has every voter vote, nothing but empty blocks afterwards (seeded C02-m6)
+	GovFixed bool
 	// TraceOnly is not a protocol setting: the histories of this case are observed on traceable blocks only
 	TraceOnly bool
 }
@@ -46,8 +52,48 @@ type Local struct {
 	Timer bool   // flushes (and GC) are left to the node's own 1 s timer instead of VerifPersist
 }
 
+const govCommittee = 4
+
+// govKeys derives the standby committee keys of a Gov history (fixed: every node of a case needs the same ones).
+func govKeys() []*keys.PrivateKey {
+	ks := make([]*keys.PrivateKey, govCommittee)
+	for i := range ks {
+		b := make([]byte, 32)
+		b[0], b[31] = 0x11, byte(i+1)
+		k, err := keys.NewPrivateKeyFromBytes(b)
+		if err != nil {
+			panic(err)
+		}
+		ks[i] = k
+	}
+	return ks
+}
+
+func multisigSigner(m int, ks []*keys.PrivateKey) neotest.Signer {
+	pubs := make(keys.PublicKeys, len(ks))
+	for i := range ks {
+		pubs[i] = ks[i].PublicKey()
+	}
+	accs := make([]*wallet.Account, len(ks))
+	for i := range ks {
+		accs[i] = wallet.NewAccountFromPrivateKey(ks[i])
+		if err := accs[i].ConvertMultisig(m, pubs.Copy()); err != nil {
+			panic(err)
+		}
+	}
+	return neotest.NewMultiSigner(accs...)
+}
+
 func cfgHook(p Proto, l Local) func(*config.Blockchain) {
 	return func(c *config.Blockchain) {
+		if p.Gov {
+			sb := make([]string, govCommittee)
+			for i, k := range govKeys() {
+				sb[i] = k.PublicKey().StringCompressed()
+			}
+			c.StandbyCommittee = sb
+			c.ValidatorsCount = 1
+		}
 		c.StateRootInHeader = p.SRH
 		if p.MTB != 0 {
 			c.MaxTraceableBlocks = p.MTB
@@ -155,6 +201,13 @@ type builder struct {
 	probes      []*transaction.Transaction
 	probeSigner []int // index into accs
 	gas, neo    util.Uint160
+	// governance (Proto.Gov)
+	policy     util.Uint160
+	committee  neotest.Signer
+	cands      []neotest.Signer  // single-signature accounts of standby members 1..3: at most 3 candidates are ever
+	candKeys   []*keys.PublicKey // registered, so the committee stays the standby one and the validator does not change
+	registered []bool
+	blocked    []bool
 }
 
 func (b *builder) mkTx(script []byte, signer neotest.Signer, sysFee int64, attrs ...transaction.Attribute) *transaction.Transaction {
@@ -177,6 +230,11 @@ func (b *builder) call(signer neotest.Signer, h util.Uint160, method string, arg
 func (b *builder) genTx(o *counters) (*transaction.Transaction, [][2]int) {
 	r := b.r
 	pickAcc := func() int { return r.Intn(len(b.accs)) }
+	if b.cands != nil && r.Chance(1, 4) {
+		if tx := b.genGovTx(o); tx != nil {
+			return tx, nil
+		}
+	}
 	for {
 		switch r.Weighted([]int{30, 10, 25, 8, 8, 12}) {
 		case 0: // GAS transfer between accounts
@@ -224,6 +282,47 @@ func (b *builder) genTx(o *counters) (*transaction.Transaction, [][2]int) {
 	}
 }
 
+// genGovTx draws one transaction that changes the committee's vote counts (NEO.votesChanged).
+func (b *builder) genGovTx(o *counters) *transaction.Transaction {
+	r := b.r
+	switch r.Weighted([]int{20, 40, 25, 15}) {
+	case 0: // registerCandidate / unregisterCandidate
+		i := r.Intn(len(b.cands))
+		method := "registerCandidate"
+		if b.registered[i] {
+			method = "unregisterCandidate"
+		}
+		b.registered[i] = !b.registered[i]
+		o.count("tx:gov-" + method)
+		script, err := smartcontract.CreateCallScript(b.neo, method, b.candKeys[i].Bytes())
+		if err != nil {
+			panic(err)
+		}
+		return b.mkTx(script, b.cands[i], 1010_0000_0000)
+	case 1: // vote for a (possibly unregistered) candidate, or withdraw the vote
+		a := r.Intn(len(b.accs))
+		var arg any
+		if !r.Chance(1, 5) {
+			arg = b.candKeys[r.Intn(len(b.candKeys))].Bytes()
+		}
+		o.count("tx:gov-vote")
+		return b.call(b.accs[a], b.neo, "vote", b.accs[a].ScriptHash(), arg)
+	case 2: // NEO transfer between (voting) accounts
+		i, j := r.Intn(len(b.accs)), r.Intn(len(b.accs))
+		o.count("tx:gov-neo-transfer-of-voter")
+		return b.call(b.accs[i], b.neo, "transfer", b.accs[i].ScriptHash(), b.accs[j].ScriptHash(), int64(r.Range(1, 20)), nil)
+	default: // Policy.blockAccount / unblockAccount of a candidate's account (committee)
+		i := r.Intn(len(b.cands))
+		method := "blockAccount"
+		if b.blocked[i] {
+			method = "unblockAccount"
+		}
+		b.blocked[i] = !b.blocked[i]
+		o.count("tx:gov-" + method)
+		return b.call(b.committee, b.policy, method, b.cands[i].ScriptHash())
+	}
+}
+
 type counters struct{ m map[string]int }
 
 func (c *counters) count(k string)      { c.m[k]++ }
@@ -240,8 +339,24 @@ func buildHistory(r *prng.R, p Proto, n int, o *counters, withTxs func(i int) bo
 			BlockchainConfigHook: cfgHook(p, Local{}),
 			Logger:               zap.NewNop(),
 		})
-		e := neotest.NewExecutor(t, bc, val, val)
+		var committee neotest.Signer = val
+		if p.Gov {
+			ks := govKeys()
+			val = multisigSigner(1, ks[:1])
+			committee = multisigSigner(smartcontract.GetMajorityHonestNodeCount(govCommittee), ks)
+		}
+		e := neotest.NewExecutor(t, bc, val, committee)
 		b := &builder{t: t, r: r, bc: bc, e: e, val: val}
+		if p.Gov {
+			b.committee = committee
+			b.policy = e.NativeHash(t, nativenames.Policy)
+			for _, k := range govKeys()[1:] {
+				b.cands = append(b.cands, neotest.NewSingleSigner(wallet.NewAccountFromPrivateKey(k)))
+				b.candKeys = append(b.candKeys, k.PublicKey())
+			}
+			b.registered = make([]bool, len(b.cands))
+			b.blocked = make([]bool, len(b.cands))
+		}
 		b.gas = e.NativeHash(t, nativenames.Gas)
 		b.neo = e.NativeHash(t, nativenames.Neo)
 		for i := 0; i < 3; i++ {
@@ -291,10 +406,34 @@ func buildHistory(r *prng.R, p Proto, n int, o *counters, withTxs func(i int) bo
 				info BlockInfo
 			)
 			switch {
+			case p.GovFixed && i > 1:
+				if i == 2*govCommittee+1 {
+					for c := range b.cands {
+						script, err := smartcontract.CreateCallScript(b.neo, "registerCandidate", b.candKeys[c].Bytes())
+						if err != nil {
+							panic(err)
+						}
+						txs = append(txs, b.mkTx(script, b.cands[c], 1010_0000_0000))
+					}
+					for a := range b.accs {
+						txs = append(txs, b.call(b.accs[a], b.neo, "vote", b.accs[a].ScriptHash(), b.candKeys[a%len(b.candKeys)].Bytes()))
+					}
+					o.count("tx:gov-fixed-vote-block")
+				}
 			case !withTxs(i):
 			case i == 1 && withTxs(1): // fund the accounts
 				for _, a := range b.accs {
 					txs = append(txs, b.call(val, b.gas, "transfer", val.ScriptHash(), a.ScriptHash(), int64(5000_0000_0000), nil))
+				}
+				if p.Gov {
+					// candidates pay the registration price, the committee pays for Policy calls, voters hold NEO
+					for _, cnd := range b.cands {
+						txs = append(txs, b.call(val, b.gas, "transfer", val.ScriptHash(), cnd.ScriptHash(), int64(20000_0000_0000), nil))
+					}
+					txs = append(txs, b.call(val, b.gas, "transfer", val.ScriptHash(), committee.ScriptHash(), int64(5000_0000_0000), nil))
+					for j, a := range b.accs {
+						txs = append(txs, b.call(val, b.neo, "transfer", val.ScriptHash(), a.ScriptHash(), int64(1000000*(j+1)), nil))
+					}
 				}
 			case !b.deployed && (i >= 2 && r.Chance(1, 2) || i == 4):
 				rawManifest, _ := json.Marshal(b.ctr.Manifest)
